@@ -17,8 +17,7 @@ open Carquet.Proofs.WriterLayout (stateAfter GroupsAt groupsSize)
 
 /-- **The faulty-stream writer is the writer** (`stepS_healthy`): in an environment that never
 makes a stream operation fail, one call on a state in which nothing has failed (`Good`: error
-indicator clear, nothing carried over from a failed attempt, the stream holds exactly the
-writer's `out`) leaves such a state again, and writer state and status are those of the healthy
+indicator clear, the stream holds exactly the writer's `out`) leaves such a state again, and writer state and status are those of the healthy
 model `Impl.Writer.step`; a whole session returns the statuses of `fileOf`. -/
 theorem C18_writer_healthy_stream {ε : Type} (D : Deps) (E : Env ε) (hE : Quiet E) :
     (∀ (x : SW ε) (op : Op), Good x →
@@ -153,15 +152,17 @@ theorem C18_writer_failed_call_poisons_close {ε : Type} (D : Deps) (E : Env ε)
 
 /-- a call reports FILE_WRITE only with the error indicator set; a `write_batch` that reports it
 (it can only have failed on the header magic) leaves the writer exactly as it was, so the next
-call writes the magic again -/
+call writes the magic again.  (Until fix F23 the state also had a `carry` component — what failed
+finalisations had left in the row-group writer's `total_byte_size` — and the statement said it is
+unchanged as well; `carquet_row_group_writer_finalize` now starts from 0, the component is gone.) -/
 theorem C18_writer_failed_call_state {ε : Type} (D : Deps) (E : Env ε) (x : SW ε) :
     (∀ op, (stepS D E x op).2 = .fileWrite → (stepS D E x op).1.s.err = true) ∧
     (∀ b, (stepS D E x (.batch b)).2 = .fileWrite →
-      (stepS D E x (.batch b)).1.w = x.w ∧ (stepS D E x (.batch b)).1.carry = x.carry) := by
+      (stepS D E x (.batch b)).1.w = x.w) := by
   refine ⟨fun op h => stepS_fw D E x op h, fun b h => ?_⟩
   simp only [stepS, writeBatchS] at h ⊢
   split
-  · exact ⟨rfl, rfl⟩
+  · rfl
   · rename_i c hc
     simp only [hc] at h
     by_cases ho : (ensureHeaderS E x).2 = .ok
@@ -174,9 +175,9 @@ theorem C18_writer_failed_call_state {ε : Type} (D : Deps) (E : Env ε) (x : SW
 indicator (`closeSNoFerror`, the tree before fix F42).  A transient fault cuts the row-group write
 of `new_row_group` short after 3 bytes (the call reports FILE_WRITE), the caller carries on, every
 later stream operation succeeds: that close returns OK although the sink holds the 3 stray bytes,
-both batches merged into one row group written at the second attempt, and a footer whose
-`total_byte_size` counts the first attempt as well — not the file of the history, nor of its OK
-calls.  The close of the current tree reports FILE_WRITE on the same session. -/
+both batches merged into one row group written at the second attempt — not the file of the
+history, nor of its OK calls.  (Before fix F23 the footer's `total_byte_size` also counted the first
+attempt.)  The close of the current tree reports FILE_WRITE on the same session. -/
 theorem C18_regression_F42 :
     (closeSNoFerror toyDeps (Env.ofOracle transientOracle) true
       ((toyOps.foldl (fun x op => (stepS toyDeps (Env.ofOracle transientOracle) x op).1) (initS 0 toyCols 0 0 "x")))).2 = .ok ∧
